@@ -1,7 +1,9 @@
 package harness
 
 import (
+	"bytes"
 	"fmt"
+	"io"
 	"net/http"
 	"net/url"
 	"sort"
@@ -222,7 +224,13 @@ func sesRun(t *testing.T, lines []string) []string {
 				}
 				opts.SetAllowUpgrades(f[7] == "1")
 				opts.SetAllowEIO3(f[8] == "1")
-				if f[9] != "-" {
+				switch {
+				case f[9] == "-":
+				case strings.HasPrefix(f[9], "r"): // a plain seekable reader instead of a buffer
+					opts.SetInitialPacket(strings.NewReader(string(unhx(f[9][1:]))))
+				case strings.HasPrefix(f[9], "R"):
+					opts.SetInitialPacket(bytes.NewReader(unhx(f[9][1:])))
+				default:
 					opts.SetInitialPacket(types.NewStringBuffer(unhx(f[9])))
 				}
 				if f[10] == "1" {
@@ -326,6 +334,14 @@ func sesRun(t *testing.T, lines []string) []string {
 					body = []byte{}
 				}
 				w.request("POST", w.sesURL(sess(f[2])), hdr, body, f[4] == "1", false)
+			case "postslow": // ses postslow <s> <hex>: the upload stalls after the first byte until "ses unpark"
+				gate := make(chan struct{})
+				w.parkMu.Lock()
+				w.listenerParked = append(w.listenerParked, gate)
+				w.parkMu.Unlock()
+				wrapBody = func(r io.Reader) io.Reader { return &stallReader{r: r, gate: gate} }
+				w.request("POST", w.sesURL(sess(f[2])), http.Header{"Content-Type": {"text/plain;charset=UTF-8"}}, unhx(f[3]), false, false)
+				wrapBody = nil
 			case "postj": // ses postj <s> <hex payload>: a JSONP client submits the payload as form field d
 				esc := strings.ReplaceAll(string(unhx(f[3])), "\\n", "\\\\n")
 				esc = strings.ReplaceAll(esc, "\n", "\\n")
@@ -379,7 +395,24 @@ func sesRun(t *testing.T, lines []string) []string {
 					w.cbSeq++
 					id := w.cbSeq
 					tag := f[2]
-					cb = func(transports.Transport) { w.e("%s:cb:%d", tag, id) }
+					so := sess(f[2])
+					cb = func(transports.Transport) {
+						w.e("%s:cb:%d", tag, id)
+						for _, call := range w.reacts["cb"] {
+							if w.reactCount["cb"] >= 2 {
+								break
+							}
+							w.reactCount["cb"]++
+							switch call {
+							case "send":
+								so.Send(types.NewStringBufferString("re:cb"), nil, nil)
+							case "close0":
+								so.Close(false)
+							case "close1":
+								so.Close(true)
+							}
+						}
+					}
 				}
 				if w.windows {
 					so := sess(f[2])
@@ -631,4 +664,22 @@ func (w *sesWorld) regShort() string {
 	}
 	sort.Ints(ords)
 	return fmt.Sprintf("%s:%d", ints(ords), int64(w.srv.ClientsCount()))
+}
+
+// stallReader hands out one byte, then waits for its gate before the rest.
+type stallReader struct {
+	r    io.Reader
+	gate chan struct{}
+	n    int
+}
+
+func (s *stallReader) Read(p []byte) (int, error) {
+	if s.n == 1 {
+		<-s.gate
+	}
+	s.n++
+	if s.n == 1 && len(p) > 1 {
+		p = p[:1]
+	}
+	return s.r.Read(p)
 }
